@@ -1,7 +1,7 @@
 (* C26: witnesses and property-level statements; Props/C26.v only restates them. *)
 From Coq Require Import ZArith String.
 From ApolloVerif Require Import Base.Chars Ast.Ast Schema.Model Run.Json Run.Coerce Run.TypedDoc Run.Prog
-  Run.Execute Run.ExecTop Run.RefExecute Run.ExecKnown Run.ExecProofs Run.ExecPaths.
+  Run.Execute Run.ExecTop Run.RefExecute Run.ExecProofs Run.ExecPaths Run.ExecRefDefs.
 Local Open Scope string_scope.
 Local Open Scope list_scope.
 
@@ -27,18 +27,19 @@ Definition x_cov_doc : document :=
 Definition x_cov_world : world :=
   [((0%N, xs "i"), BhObject 1%N (xs "T")); ((1%N, xs "f"), BhLeaf JNull)].
 
-(* the code answers {"i": {"f": null}} without error although T.f is Int!; the specification's answer is
-   {"i": null} with a field error at ["i", "f"] *)
-Lemma c26_covariant_refuted :
-  (exists d, td_build x_cov_schema x_cov_doc = Some d /\ known_covariant x_cov_schema d = true) /\
+(* before the repair of execute_field (the value was completed against `field.ty()`, the interface's `Int`) the code
+   answered {"i": {"f": null}} without error although T.f is Int!; now the value is completed against T.f's type and
+   the answer is the specification's: {"i": null} with a field error at ["i", "f"] *)
+Lemma c26_covariant_repaired :
+  (exists d, td_build x_cov_schema x_cov_doc = Some d) /\ sch_exec_wf x_cov_schema = true /\
   fst (execute_request x_cov_schema x_cov_doc [] x_cov_world) =
-    EoResponse {| er_data := Some [(xs "i", JObj [(xs "f", JNull)])]; er_errors := [] |} /\
-  ref_execute x_cov_schema x_cov_doc [] x_cov_world =
     EoResponse {| er_data := Some [(xs "i", JNull)];
-                  er_errors := [{| ge_class := EcNull; ge_path := [PsKey (xs "i"); PsKey (xs "f")] |}] |}.
+                  er_errors := [{| ge_class := EcNull; ge_path := [PsKey (xs "i"); PsKey (xs "f")] |}] |} /\
+  ref_execute x_cov_schema x_cov_doc [] x_cov_world = fst (execute_request x_cov_schema x_cov_doc [] x_cov_world).
 Proof.
-  split; [|split].
-  - eexists. split; vm_compute; reflexivity.
+  split; [|split; [|split]].
+  - eexists. vm_compute. reflexivity.
+  - vm_compute. reflexivity.
   - vm_compute. reflexivity.
   - vm_compute. reflexivity.
 Qed.
@@ -48,8 +49,8 @@ Qed.
    resolver world:
    - the data, when present, is shaped by the operation's selection set on the root type: exactly the collected
      response keys in order (minus undefined / resolver-skipped fields), lists nested as the selections' field
-     types say, leaves accepted by result coercion, and null only where the selection's field type, or the field's
-     type on the object type, is nullable;
+     types on the concrete object types say, leaves accepted by result coercion, and null only where the field's
+     type on the object type is nullable;
    - if the data is null, at least one field error is reported. *)
 Lemma c26_nonnull : forall s doc values w d vars root impls r log,
   execute_prepare s doc values = EpReady d vars root impls ->
@@ -60,7 +61,7 @@ Proof.
   intros s doc values w d vars root impls r log Hp H. unfold execute_request in H. rewrite Hp in H.
   destruct (run_sync w (execute_prog s d vars root impls) []) as [[res st] lg] eqn:E.
   injection H as H _. unfold execute_prog in E.
-  destruct (inv_all w (ex_cx_for s d vars) (ex_fuel_for d)) as (Hs & _).
+  destruct (inv_all w (ex_cx_for s d vars) (ex_fuel_for s d)) as (Hs & _).
   destruct (Hs _ _ _ _ _ _ _ _ _ _ E) as [(new & -> & _ & Hn) Hm]. rewrite app_nil_r in H.
   destruct res as [m| |]; cbn [ex_outcome] in H; try discriminate; injection H as <-; cbn [er_data er_errors].
   - split; [|discriminate]. intros m' [= <-]. now apply Hm.
@@ -94,7 +95,7 @@ Proof.
     [|injection H as -> _; exfalso; now apply (prepare_stop_not_response _ _ _ _ r Ep0)].
   destruct (run_sync w (execute_prog s d vars root impls) []) as [[res st] lg] eqn:E.
   injection H as H _. unfold execute_prog in E.
-  destruct (q_all w (ex_cx_for s d vars) Hw (ex_fuel_for d)) as (Hs & _).
+  destruct (q_all w (ex_cx_for s d vars) Hw (ex_fuel_for s d)) as (Hs & _).
   destruct (Hs _ _ _ _ _ _ _ _ _ _ E) as (new & -> & F). rewrite app_nil_r in H.
   destruct res as [m| |]; cbn [ex_outcome] in H; try discriminate; injection H as <-;
     cbn [er_data er_errors] in He |- *; [|exact I].
@@ -136,9 +137,10 @@ Proof.
   - reflexivity.
 Qed.
 
-(* ---------------------------------------------------------------- second known class *)
+(* ---------------------------------------------------------------- variables inside custom scalar literals *)
 (* scalar Any  type Query { any(j: Any): Any } ; query($v: Int) { any(j: {a: $v}) } with {"v": 3}:
-   the (valid) document's field fails with a SuspectedValidationBug error and the resolver is never called *)
+   before the repair of coerce_argument_value the (valid) document's field failed with a SuspectedValidationBug error
+   and the resolver was never called; now the variable is substituted and the resolver receives {"j": {"a": 3}} *)
 Definition x_nv2_schema : schema :=
   {| sch_def := x_sdef; sch_dirdefs := [];
      sch_types := [x_scalar "Int"; x_scalar "String"; EScalar None (xs "Any") [] false;
@@ -152,9 +154,11 @@ Definition x_nv2_doc : document :=
      [{| v_name := xs "v"; v_ty := TNamed (xs "Int"); v_default := None; v_dirs := [] |}] []
      [SField None (xs "any") [(xs "j", VObject [(xs "a", VVar (xs "v"))])] [] []]].
 
-Lemma c26_nested_variable_refuted :
-  (exists d, td_build x_nv2_schema x_nv2_doc = Some d /\ known_nested_var d = true) /\
+Lemma c26_nested_variable_repaired :
+  (exists d, td_build x_nv2_schema x_nv2_doc = Some d) /\
   execute_request x_nv2_schema x_nv2_doc [(xs "v", JInt 3)] [((0%N, xs "any"), BhEcho)] =
-    (EoResponse {| er_data := Some [(xs "any", JNull)];
-                   er_errors := [{| ge_class := EcBug; ge_path := [PsKey (xs "any")] |}] |}, []).
-Proof. split; [eexists; split; vm_compute; reflexivity|vm_compute; reflexivity]. Qed.
+    (EoResponse {| er_data := Some [(xs "any", JObj [(xs "j", JObj [(xs "a", JInt 3)])])]; er_errors := [] |},
+     [{| ec_obj := 0%N; ec_field := xs "any"; ec_args := [(xs "j", JObj [(xs "a", JInt 3)])] |}]) /\
+  ref_execute x_nv2_schema x_nv2_doc [(xs "v", JInt 3)] [((0%N, xs "any"), BhEcho)] =
+    fst (execute_request x_nv2_schema x_nv2_doc [(xs "v", JInt 3)] [((0%N, xs "any"), BhEcho)]).
+Proof. split; [eexists; vm_compute; reflexivity|split; vm_compute; reflexivity]. Qed.
